@@ -31,7 +31,22 @@ fn bad<T>(prop: &'static str, what: String) -> Result<T, (&'static str, String)>
 
 type PollOut = (Poll<Option<u64>>, Arc<FlagWaker>);
 
-fn poll_role(sub: Slot<Subscriber<u64>>, res: Slot<PollOut>) -> RoleFn {
+/// what the directed scenarios need from a subscriber of either lock flavour
+pub trait SubLike: Stream<Item = u64> + Unpin + Send + 'static {
+    fn get_now(&self) -> u64;
+}
+impl SubLike for Subscriber<u64> {
+    fn get_now(&self) -> u64 {
+        self.get()
+    }
+}
+impl SubLike for Subscriber<u64, AsyncLock> {
+    fn get_now(&self) -> u64 {
+        block_on_park(self.get())
+    }
+}
+
+fn poll_role<S: SubLike>(sub: Slot<S>, res: Slot<PollOut>) -> RoleFn {
     Box::new(move || {
         let mut s = sub.lock().unwrap().take().unwrap();
         let r = poll_stream_once(&mut s);
@@ -41,8 +56,8 @@ fn poll_role(sub: Slot<Subscriber<u64>>, res: Slot<PollOut>) -> RoleFn {
 }
 
 /// after the roles have joined: drain the subscriber and compare with what must be there
-fn settle(
-    sub: &Slot<Subscriber<u64>>,
+fn settle<S: SubLike>(
+    sub: &Slot<S>,
     first: &Slot<PollOut>,
     must_end: bool,
     owner_alive: bool,
@@ -94,7 +109,7 @@ fn settle(
         return bad("C03", format!("{who}: every owner is gone but the stream did not end (saw {seen:?})"));
     }
     if let Some(v) = last_value {
-        let got = s.get();
+        let got = s.get_now();
         if got != v {
             return bad("C01", format!("{who}: get() = {got} after the writers finished, last written value {v}"));
         }
@@ -119,6 +134,14 @@ pub enum Scen {
     DropVsUpgrade,
     ThreeClonesDropped,
     DropUpgradePoll,
+    /// poll s1 || (drop another subscriber, then set)
+    PollVsSubscriberDropThenSet,
+    /// unique -> shared conversion on one thread while a subscriber polls on another, then set
+    IntoSharedVsPoll,
+    /// async-lock flavour: poll || set (the writer drives its future on a park/unpark executor)
+    PollSetAsync,
+    /// async-lock flavour: poll || drop of the last owner
+    PollCloseAsync,
 }
 
 pub const C02_SCENS: &[Scen] = &[
@@ -129,8 +152,12 @@ pub const C02_SCENS: &[Scen] = &[
     Scen::PollSetCloseShared,
     Scen::PollSetUnique,
     Scen::PollCloseUnique,
+    Scen::PollVsSubscriberDropThenSet,
+    Scen::PollSetAsync,
+    Scen::PollCloseAsync,
 ];
-pub const C03_SCENS: &[Scen] = &[Scen::TwoLastClonesDropped, Scen::DropVsUpgrade, Scen::ThreeClonesDropped, Scen::DropUpgradePoll];
+pub const C03_SCENS: &[Scen] =
+    &[Scen::TwoLastClonesDropped, Scen::DropVsUpgrade, Scen::ThreeClonesDropped, Scen::DropUpgradePoll, Scen::IntoSharedVsPoll];
 
 fn run_scen(sc: Scen, prefix: &[usize]) -> (SchedRun, V) {
     match sc {
@@ -237,6 +264,78 @@ fn run_scen(sc: Scen, prefix: &[usize]) -> (SchedRun, V) {
             let res = slot();
             let run = run_schedule(vec![poll_role(sub.clone(), res.clone()), Box::new(move || drop(ob))], prefix, t_block());
             let v = settle(&sub, &res, true, false, None, "unique: poll || drop");
+            (run, v)
+        }
+        Scen::PollSetAsync => {
+            let ob: SharedObservable<u64, AsyncLock> = SharedObservable::new_async(0u64);
+            let sub = slot_with(block_on_park(ob.subscribe()));
+            let res = slot();
+            let w = ob.clone();
+            let run = run_schedule(
+                vec![
+                    poll_role(sub.clone(), res.clone()),
+                    Box::new(move || {
+                        block_on_park(w.set(1));
+                    }),
+                ],
+                prefix,
+                t_block(),
+            );
+            let v = settle(&sub, &res, false, true, Some(1), "async-lock: poll || set");
+            drop(ob);
+            (run, v)
+        }
+        Scen::PollCloseAsync => {
+            let ob: SharedObservable<u64, AsyncLock> = SharedObservable::new_async(0u64);
+            let sub = slot_with(block_on_park(ob.subscribe()));
+            let res = slot();
+            let run = run_schedule(vec![poll_role(sub.clone(), res.clone()), Box::new(move || drop(ob))], prefix, t_block());
+            let v = settle(&sub, &res, true, false, None, "async-lock: poll || drop of the last owner");
+            (run, v)
+        }
+        Scen::PollVsSubscriberDropThenSet => {
+            let ob = SharedObservable::new(0u64);
+            let sub = slot_with(ob.subscribe());
+            let mut other = ob.subscribe();
+            // the other subscriber has a waker registered, too
+            let _ = poll_stream_once(&mut other);
+            let res = slot();
+            let w = ob.clone();
+            let run = run_schedule(
+                vec![
+                    poll_role(sub.clone(), res.clone()),
+                    Box::new(move || {
+                        drop(other);
+                        w.set(1);
+                    }),
+                ],
+                prefix,
+                t_block(),
+            );
+            let v = settle(&sub, &res, false, true, Some(1), "poll || drop of another subscriber, then set");
+            drop(ob);
+            (run, v)
+        }
+        Scen::IntoSharedVsPoll => {
+            let ob = Observable::new(0u64);
+            let sub = slot_with(Observable::subscribe(&ob));
+            let res = slot();
+            let shared: Slot<SharedObservable<u64>> = slot();
+            let sh2 = shared.clone();
+            let run = run_schedule(
+                vec![
+                    poll_role(sub.clone(), res.clone()),
+                    Box::new(move || {
+                        let s = Observable::into_shared(ob);
+                        s.set(1);
+                        *sh2.lock().unwrap() = Some(s);
+                    }),
+                ],
+                prefix,
+                t_block(),
+            );
+            let v = settle(&sub, &res, false, true, Some(1), "poll || into_shared, then set");
+            drop(shared);
             (run, v)
         }
         Scen::TwoLastClonesDropped => {
